@@ -252,9 +252,11 @@ def gen_small(r, m, n):
 def random_valid_basis(r, p, free_zero_only=True):
     """a status array pair accepted by isBasisValid for the LP p (m BASIC entries, non-basic entries consistent with the bounds)"""
     m, n = p.m, p.n
-    pos = list(range(m + n))
+    # free rows are mostly kept basic (a non-basic free row is a known trouble spot of its own)
+    keep = set(i for i in range(m) if p.rows[i][0] is None and p.rows[i][2] is None and r.random() < 0.85)
+    pos = [x for x in range(m + n) if x not in keep]
     r.shuffle(pos)
-    basic = set(pos[:m])
+    basic = keep | set(pos[:m - len(keep)])
 
     def nb(lo, up):
         opts = []
